@@ -34,11 +34,15 @@ type Rule struct {
 // Dir so that the following TempFile fails), readonly (swap the descriptor for a
 // read-only one so that writes fail but later seeks and reads work), corrupt (overwrite the file's
 // content with garbage so that the following decode fails), truncate (cut the
-// last byte off the file so that its final record cannot be read).
+// last byte off the file so that its final record cannot be read), readonly-once
+// (read-only for the one operation that follows: a transient write failure).
 type Fault struct {
 	Step   string `json:"step"`
 	Occ    int    `json:"occ"`
 	Action string `json:"action"`
+	// After, when set, names a harness mark (e.g. "cycle-start 1"); the fault is armed only once
+	// that mark has been seen and Occ counts the occurrences of Step from then on.
+	After string `json:"after,omitempty"`
 }
 
 type Event struct {
@@ -66,6 +70,8 @@ type Scheduler struct {
 	Dir     string // directory removed by the rmdir action
 	holds   []HoldResult
 	applied []string
+	base    map[string]map[string]int // mark name -> step counts when the mark was seen
+	restore map[*os.File]int          // readonly-once: the saved writable descriptor of a file
 }
 
 func New(rules []Rule, faults []Fault) *Scheduler {
@@ -102,10 +108,39 @@ func (s *Scheduler) Hook(step string, f *os.File, i int) {
 	}
 	s.events = append(s.events, Event{Seq: len(s.events), Step: step, Occ: occ, GID: g, I: i, File: name})
 	s.counts[step] = occ + 1
+	if f == nil && occ == 0 {
+		// possibly a harness mark: remember the counts at this moment
+		if s.base == nil {
+			s.base = map[string]map[string]int{}
+		}
+		snap := map[string]int{}
+		for k, v := range s.counts {
+			snap[k] = v
+		}
+		s.base[step] = snap
+	}
+	if f != nil {
+		// a file made read-only for one operation gets its writable descriptor back at the next step
+		if fd, ok := s.restore[f]; ok {
+			syscall.Dup2(fd, int(f.Fd()))
+			syscall.Close(fd)
+			delete(s.restore, f)
+		}
+	}
 	var fault *Fault
 	for k := range s.faults {
-		if s.faults[k].Step == step && s.faults[k].Occ == occ {
-			fault = &s.faults[k]
+		ft := &s.faults[k]
+		if ft.Step != step {
+			continue
+		}
+		if ft.After == "" {
+			if ft.Occ == occ {
+				fault = ft
+			}
+			continue
+		}
+		if b, ok := s.base[ft.After]; ok && occ-b[step] == ft.Occ {
+			fault = ft
 		}
 	}
 	holdIdx := -1
@@ -162,6 +197,29 @@ func (s *Scheduler) apply(ft Fault, f *os.File) {
 					desc = "made " + filepath.Base(f.Name()) + " read-only"
 				}
 				syscall.Close(ro)
+			}
+		}
+	case "readonly-once":
+		// as readonly, but only for the operation that follows: the next step on the same file
+		// restores the writable descriptor (a transient write failure)
+		if f != nil {
+			if saved, err := syscall.Dup(int(f.Fd())); err == nil {
+				if ro, err := syscall.Open(f.Name(), syscall.O_RDONLY, 0); err == nil {
+					if err := syscall.Dup2(ro, int(f.Fd())); err == nil {
+						desc = "made " + filepath.Base(f.Name()) + " read-only for one operation"
+						s.mu.Lock()
+						if s.restore == nil {
+							s.restore = map[*os.File]int{}
+						}
+						s.restore[f] = saved
+						s.mu.Unlock()
+						saved = -1
+					}
+					syscall.Close(ro)
+				}
+				if saved >= 0 {
+					syscall.Close(saved)
+				}
 			}
 		}
 	case "rmdir":
